@@ -48,6 +48,10 @@ was strengthened (never by loosening a check):
 | C15-2 (options-template cache cloned per template flowset) | no large cache in the scale driver | large-cache shapes (1 200 templates, then 1 200 small template sets) |
 | C16-1 (cache bounded at 1 024 with arbitrary eviction) | at most 16 template ids per history | `many_templates_session` (1 100 ids, twin parsers, 25 ids queried) |
 | C07-4 (error arm drops the packets decoded before it) | reported under C02/C03/C12/C14 only | C07's "earlier packets are still reported" attributed |
+| C11-3 (templates rolled back when the buffer ends in an error) | chain rounds demanded that no packet errs; reported under C06/C14 only | the last packet of a chain may be one that errs alone (results and caches must still agree) |
+| C15-3, C15-4 (record size wraps past 65 535 and the template is cloned per byte; V7 arm copies the remainder per packet) | the scale driver had neither shape | a 2 000-field template whose lengths sum to 65 537 followed by 28 KB of data; a datagram packed with header-only V7 packets |
+| C16-3 (duplicate ids in one template flowset reordered through a HashMap) | template sets never repeated an id | `dup_templates_session`: 8 ids, two repeated, twin parsers |
+| C14-3 (truncated IPFIX message leaks its complete template sets) - caught at first by C06 and C14 | - | C14's cache clause is attributed explicitly when the reference says the buffer ends in a cut V5/V7/IPFIX packet |
 
 | change | what it does | what it needs to manifest | confirmed | checks that report a VIOLATION | own property's check |
 |---|---|---|---|---|---|
